@@ -116,6 +116,17 @@ func genPosition(g *mt.Gen, dir traits.OpenClosePosition_Direction) *traits.Open
 // buildOpenClose: 0-3 stored positions, 0-2 presets, the first of which usually matches the stored
 // positions (so that the unmasked read reports a derived preset).
 func buildOpenClose(g *mt.Gen) *openclosepb.Model {
+	if composedStart != "" {
+		// nothing stored yet; "empty+derived": a preset WITHOUT positions is configured (it stands for "no positions",
+		// so the derived preset field is non-empty on the empty store), next to one with a position
+		var opts []resource.Option
+		if composedStart == "empty+derived" {
+			opts = append(opts, openclosepb.WithPreset(&traits.OpenClosePositions_Preset{Name: "idle", Title: "Nothing deployed"}))
+		}
+		opts = append(opts, openclosepb.WithPreset(&traits.OpenClosePositions_Preset{Name: "p1", Title: "Preset 1"},
+			&traits.OpenClosePosition{Direction: traits.OpenClosePosition_UP, OpenPercent: 40}))
+		return openclosepb.NewModel(opts...)
+	}
 	var states []*traits.OpenClosePosition
 	n := g.R.Intn(4)
 	if g.R.Intn(3) == 0 {
@@ -205,6 +216,9 @@ var creaders = []creader{
 					if mask != nil {
 						ropts = append(ropts, resource.WithReadMask(mask))
 					}
+					if composedUpdatesOnly {
+						ropts = append(ropts, resource.WithUpdatesOnly(true))
+					}
 					in := m.PullPositions(ctx, ropts...)
 					go func() {
 						defer close(out)
@@ -225,7 +239,7 @@ var creaders = []creader{
 		[]string{"electricpb.ListModes"},
 		func(g *mt.Gen) *instance {
 			m := electricpb.NewModel()
-			for i, n := 0, 1+g.R.Intn(3); i < n; i++ {
+			for i, n := 0, nStored(g, 1, 3); i < n; i++ {
 				x := &traits.ElectricMode{}
 				fillItem(g, x)
 				x.Id, x.Normal = "", false
@@ -251,7 +265,7 @@ var creaders = []creader{
 		[]string{"hailpb.ListHails"},
 		func(g *mt.Gen) *instance {
 			m := hailpb.NewModel(hailpb.WithKeepAlive(-1))
-			for i, n := 0, 1+g.R.Intn(3); i < n; i++ {
+			for i, n := 0, nStored(g, 1, 3); i < n; i++ {
 				x := &traits.Hail{}
 				fillItem(g, x)
 				x.Id = ""
@@ -277,7 +291,7 @@ var creaders = []creader{
 		[]string{"publicationpb.ListPublications"},
 		func(g *mt.Gen) *instance {
 			m := publicationpb.NewModel()
-			for i, n := 0, 1+g.R.Intn(3); i < n; i++ {
+			for i, n := 0, nStored(g, 1, 3); i < n; i++ {
 				x := &traits.Publication{}
 				fillItem(g, x)
 				x.Id = fmt.Sprintf("pub%d", i)
@@ -303,7 +317,7 @@ var creaders = []creader{
 		[]string{"vendingpb.ListConsumables"},
 		func(g *mt.Gen) *instance {
 			m := vendingpb.NewModel()
-			for i, n := 0, 1+g.R.Intn(3); i < n; i++ {
+			for i, n := 0, nStored(g, 1, 3); i < n; i++ {
 				x := &traits.Consumable{}
 				fillItem(g, x)
 				x.Name = fmt.Sprintf("c%d", i)
@@ -329,7 +343,7 @@ var creaders = []creader{
 		[]string{"vendingpb.ListInventory"},
 		func(g *mt.Gen) *instance {
 			m := vendingpb.NewModel()
-			for i, n := 0, 1+g.R.Intn(3); i < n; i++ {
+			for i, n := 0, nStored(g, 1, 3); i < n; i++ {
 				x := &traits.Consumable_Stock{}
 				fillItem(g, x)
 				x.Consumable = fmt.Sprintf("c%d", i)
@@ -355,7 +369,7 @@ var creaders = []creader{
 		[]string{"parentpb.ListChildren"},
 		func(g *mt.Gen) *instance {
 			m := parentpb.NewModel()
-			for i, n := 0, 1+g.R.Intn(3); i < n; i++ {
+			for i, n := 0, nStored(g, 1, 3); i < n; i++ {
 				x := &traits.Child{}
 				fillItem(g, x)
 				x.Name = fmt.Sprintf("child%d", i)
@@ -382,7 +396,7 @@ var creaders = []creader{
 		[]string{"bookingpb.ListBookings"},
 		func(g *mt.Gen) *instance {
 			m := bookingpb.NewModel()
-			for i, n := 0, 1+g.R.Intn(3); i < n; i++ {
+			for i, n := 0, nStored(g, 1, 3); i < n; i++ {
 				x := &traits.Booking{}
 				fillItem(g, x)
 				x.Id = fmt.Sprintf("b%d", i)
@@ -407,7 +421,7 @@ var creaders = []creader{
 		[]string{"wastepb.ListWasteRecords", "wastepb.pullWasteRecordsWrapper"},
 		func(g *mt.Gen) *instance {
 			m := wastepb.NewModel() // comes with generated records
-			for i, n := 0, 1+g.R.Intn(2); i < n; i++ {
+			for i, n := 0, nStored(g, 1, 2); i < n; i++ {
 				x := &traits.WasteRecord{}
 				fillItem(g, x)
 				x.Id = fmt.Sprintf("w%d", i)
@@ -456,10 +470,37 @@ type ccase struct {
 	Writes    int     `json:"writes,omitempty"`
 	Pending   bool    `json:"first_write_pending,omitempty"` // modes updates, pull and seeds: a write has stored but not published when the streams open
 	Unmasked  string  `json:"unmasked,omitempty"` // what the unmasked read returned (information for the reader of a replay)
+	// Start: "" = an instance populated at random from SetupSeed; "empty" = nothing stored yet (empty collection /
+	// never-written value), no derived configuration; "empty+derived" = nothing stored yet AND the configuration that
+	// makes a derived field non-empty on an empty store (openclosepb: a preset without positions)
+	Start string `json:"start,omitempty"`
+	// UpdatesOnly (mode pull): the subscription is opened with WithUpdatesOnly(true): no seed may be delivered
+	UpdatesOnly bool `json:"updates_only,omitempty"`
+}
+
+// composedStart / composedUpdatesOnly: the Start / UpdatesOnly of the case being run, read by the builders (cases
+// run one after the other).
+var (
+	composedStart       string
+	composedUpdatesOnly bool
+)
+
+// nStored draws the number of items a builder stores (the draw is made in every start mode, so that the random
+// stream of an instance does not depend on it); nothing is stored when the case starts empty.
+func nStored(g *mt.Gen, lo, span int) int {
+	n := lo + g.R.Intn(span)
+	if composedStart != "" {
+		return 0
+	}
+	return n
 }
 
 func (c ccase) key() string {
-	return fmt.Sprintf("composed %s %s %d %s %d %v", c.Reader, c.Mode, c.SetupSeed, c.Mask.Enc(), c.Writes, c.Pending)
+	k := fmt.Sprintf("composed %s %s %d %s %d %v", c.Reader, c.Mode, c.SetupSeed, c.Mask.Enc(), c.Writes, c.Pending)
+	if c.Start != "" || c.UpdatesOnly {
+		k += fmt.Sprintf(" %s %v", c.Start, c.UpdatesOnly)
+	}
+	return k
 }
 
 type cout struct {
@@ -498,6 +539,8 @@ func (c ccase) run() cout {
 	var out cout
 	panicked, pmsg := lib.Catch(func() {
 		g := &mt.Gen{R: lib.NewRand(c.SetupSeed)}
+		composedStart, composedUpdatesOnly = c.Start, c.UpdatesOnly
+		defer func() { composedStart, composedUpdatesOnly = "", false }()
 		inst := r.Build(g)
 		fm := c.Mask.FM()
 		if c.Mode == "pull" {
@@ -685,6 +728,18 @@ func (c ccase) runPull(g *mt.Gen, inst *instance, out *cout) {
 			return false
 		}
 	}
+	if c.UpdatesOnly {
+		// no seed under updates-only; nothing is written (a subscription that sends no seed gives no sign of
+		// existing, so a write could not be ordered after it)
+		select {
+		case got, ok := <-ch:
+			if ok {
+				out.Stream = "a value was delivered under updates-only although nothing was written: " + msgText(got)
+			}
+		case <-time.After(30 * time.Millisecond):
+		}
+		return
+	}
 	if !expect("seed") {
 		return
 	}
@@ -856,6 +911,50 @@ func itemPaths(md protoreflect.MessageDescriptor, depth int) []string {
 		}
 	}
 	walk(md, "", depth)
+	return out
+}
+
+// fixedComposedCases: the part of the family that is the same for every seed and runs first.  For every reader
+// the "nothing stored yet" start — and, where the adapter derives a field from its configuration, the start with
+// the configuration that makes the derived field non-empty on an empty store — under every mask shape: nil, empty,
+// every single path of the item's path tree to depth 2 (each top-level path alone excludes every other field and
+// includes only itself; the nested ones go below the composed fields), parent+child; in every mode that has a
+// meaning on an empty store: the read, the seed values of the server-streaming Pull RPC, and for model
+// subscriptions the seed followed by two writes as well as updates-only (no seed).
+func fixedComposedCases() []ccase {
+	var out []ccase
+	for _, r := range creaders {
+		md := r.Item().ProtoReflect().Descriptor()
+		ms := []mt.Mask{mt.NilMask(), {Paths: []string{}}}
+		for _, p := range itemPaths(md, 2) {
+			ms = append(ms, mt.Mask{Paths: []string{p}})
+			if i := strings.IndexByte(p, '.'); i > 0 && len(ms)%3 == 0 {
+				ms = append(ms, mt.Mask{Paths: []string{p[:i], p}})
+			}
+		}
+		composedStart = "empty"
+		probe := r.Build(&mt.Gen{R: lib.NewRand(1)})
+		composedStart = ""
+		starts := []string{"empty"}
+		if strings.HasPrefix(r.Name, "openclosepb.") {
+			starts = []string{"empty+derived", "empty"}
+		}
+		for _, st := range starts {
+			for i, m := range ms {
+				sd := int64(1000 + i)
+				if probe.Pull == nil {
+					out = append(out, ccase{Reader: r.Name, Mode: "read", SetupSeed: sd, Mask: m, Start: st})
+				}
+				if probe.Stream != nil {
+					out = append(out, ccase{Reader: r.Name, Mode: "seeds", SetupSeed: sd, Mask: m, Start: st})
+				}
+				if probe.Pull != nil {
+					out = append(out, ccase{Reader: r.Name, Mode: "pull", SetupSeed: sd, Mask: m, Writes: 2, Start: st},
+						ccase{Reader: r.Name, Mode: "pull", SetupSeed: sd, Mask: m, Start: st, UpdatesOnly: true})
+				}
+			}
+		}
+	}
 	return out
 }
 
